@@ -37,7 +37,7 @@ base=$(( gseed % 100000 ))
 if [ "$tier" = "thorough" ]; then
   configs="0:0.9:48:8:3:dense 1:0.9:48:8:3:dense 2:0.9:48:8:3:dense 0:0.9:16:6:1:full 1:0.9:16:6:1:full 2:0.9:16:6:1:full 3:0.9:32:3:1:full 4:0.9:24:3:1:full 4:0.3:12:6:1:full 0:0.3:16:6:1:full 1:0.3:16:6:1:full 2:0.3:16:6:1:full 3:0.3:16:3:1:full"
 else
-  configs="0:0.9:4:8:3:dense 1:0.9:4:8:3:dense 2:0.9:4:8:3:dense 0:0.9:3:6:1:full 1:0.9:3:6:1:full 2:0.9:3:6:1:full 3:0.9:3:3:1:full 4:0.9:2:2:1:full"
+  configs="0:0.9:4:8:3:dense 1:0.9:4:8:3:dense 2:0.9:4:8:3:dense 0:0.9:3:6:1:full 1:0.9:3:6:1:full 2:0.9:3:6:1:full 3:0.9:3:3:1:full 4:0.9:1:3:1:full"
 fi
 nseeds="per-config"
 start=$(date +%s)
